@@ -26,6 +26,9 @@ func TestMain(m *testing.M) {
 	if baseWorld != nil {
 		baseWorld.Close()
 	}
+	for _, w := range cfgWorlds {
+		w.Close()
+	}
 	os.Exit(code)
 }
 
